@@ -958,6 +958,52 @@ def report(ctx, checker, case, res, do_shrink=True):
                         "reproduce": f"einx.{small['api']}({small['desc']!r}, *tensors_of_shapes({small['shapes']}), **{ {k: np.asarray(v).tolist() for k, v in small['params'].items()} })"})
 
 
+def directed_structural():
+    """Deterministic sweep of two structures that random generation rarely produces with *inconsistent* sizes:
+    (A) one axis name repeated inside a flattened group that has further factors (the product is a square times the rest),
+    (B) one axis that is the single unknown of two different groups / tensors, each of which determines it on its own.
+    Every case goes through the same judge as the random ones (the oracle decides must-fail / must-succeed)."""
+    out = []
+
+    def add(api, desc, shapes, params=None):
+        out.append({"api": api, "desc": desc, "shapes": [None if s is None else list(s) for s in shapes], "params": dict(params or {})})
+
+    # (A) repeated name with co-factors: totals with and without a solution
+    for tmpl, extra in [("(a a b)", 0), ("(b a a)", 0), ("(a b a)", 0), ("c (a a b)", 1), ("(a a b) c", 2), ("((a a) b)", 0), ("(a a (b))", 0),
+                        ("(a a b c)", 0), ("(a a a b)", 0)]:
+        for total in (6, 8, 10, 12, 18, 24):
+            for b in (1, 2, 3):
+                if total % b:
+                    continue
+                shape = [total] if extra == 0 else ([5, total] if extra == 1 else [total, 5])
+                params = {"b": b}
+                if " c)" in tmpl:
+                    params["c"] = 1
+                for api in ("matches", "solve_shapes"):
+                    add(api, tmpl, [shape], params)
+    for total in (6, 8, 12):
+        add("sum", "[(a a b)] c", [[total, 5]], {"b": 2})
+        add("id", "(a a b) c -> c (a a b)", [[total, 3]], {"b": 2})
+        add("solve_axes", "(a a b)", [[total]], {"b": 2})
+    # (B) one unknown determined twice
+    for k1, k2 in [(2, 3), (3, 2), (2, 2), (1, 2)]:
+        for x, y in [(3, 4), (4, 4), (2, 5), (5, 5)]:
+            for api in ("solve_axes", "matches", "solve_shapes"):
+                add(api, f"(a {k1}) (a {k2})", [[x * k1, y * k2]])
+                add(api, f"(a {k1}), (a {k2})", [[x * k1], [y * k2]])
+                add(api, "(a b) (a c)", [[x * k1, y * k2]], {"b": k1, "c": k2})
+                add(api, f"(a {k1}) c, c (a {k2})", [[x * k1, 3], [3, y * k2]])
+    for x, y in [(4, 3), (4, 4), (2, 5)]:
+        for api in ("solve_axes", "matches"):
+            add(api, "(a + 1) (a 2)", [[x + 1, y * 2]])
+            add(api, "(a + b) (a b)", [[x + 2, y * 2]], {"b": 2})
+            add(api, "b (a 2), (a + b)", [[3, 2 * x], [y + 3]])
+    for x, y in [(3, 4), (4, 4)]:
+        add("id", "(a b) (a c) -> a b c", [[x * 2, y * 3]], {"b": 2, "c": 3})
+        add("sum", "(a 2) [(a 3)]", [[x * 2, y * 3]])
+    return out
+
+
 def nontrivial(case):
     d = case["desc"]
     return ("(" in d or "..." in d or "+" in d) and any(s is not None for s in case["shapes"])
@@ -968,7 +1014,7 @@ def run(ctx):
     ctx.extra["rule"] = ("fixed cases (DESIGN Appendix A rows, inputs of D3/D4/D14) + random expression lists over <=5 axis names with nested ( ), [ ], +, numbers, "
                          "named and anonymous ellipses; shapes from a hidden ground-truth assignment, then mutated (dimension changed, rank changed, shape unknown, "
                          "constraint dropped / contradicted / redundant / wrong tuple length / scalar for an ellipsis axis); APIs solve_axes, solve_shapes, matches, id, sum; "
-                         "plus a big-number stream (products around 2**31 .. 2**64, shape-only tensors). non-trivial = description has a composition, concatenation or "
+                         "plus a deterministic sweep of repeated names inside a group with co-factors and of one unknown determined by two groups (consistent and inconsistent sizes); plus a big-number stream (products around 2**31 .. 2**64, shape-only tensors). non-trivial = description has a composition, concatenation or "
                          "ellipsis and at least one known shape; distinct by (api, description, shapes, constraints)")
     ctx.assumptions.append("front-trusted: expression trees are einx's own stage-1 trees captured at the namedtensor.solve.solve boundary (parser and _parse_op rewriting are C12/C07's subject); "
                            "model and oracle both start from these trees")
@@ -976,7 +1022,13 @@ def run(ctx):
                            "value level (Solve/Cse.lean: valueRange = _value_range translated from the source on every run, cse_preserves_sols), its candidate search and tree surgery "
                            "are C16's model (Order/Cse.lean); end to end its effect is observed through solve_shapes/matches/ops against the oracle")
     ctx.assumptions.append("the search oracle enumerates counts <= max(rank, 5) and lengths <= the largest stated dimension; uniqueness beyond these bounds is a search aid, not a proof")
-    directed = c02_cse.run_cse(ctx)   # before the budget is fixed: a broken CSE tie enlarges the search below
+    try:
+        directed = c02_cse.run_cse(ctx)   # before the budget is fixed: a broken CSE tie enlarges the search below
+    except core.MachineryError:
+        raise
+    except Exception as e:   # the internal functions of stage2/cse.py no longer have the interface the tie calls
+        ctx.tie_broken("correspondence:cse-internal-interface", f"{type(e).__name__}: {e}")
+        directed = []
     checker = Checker(ctx)
     n_rand = 350 if ctx.quick else 6000
     n_big = 60 if ctx.quick else 600
@@ -1002,6 +1054,9 @@ def run(ctx):
     for api, desc, shapes, params in FIXED:
         handle({"api": api, "desc": desc, "shapes": [None if s is None else list(s) for s in shapes], "params": dict(params)}, do_shrink=False)
     for case in directed:
+        handle(case)
+    for case in directed_structural():
+        ctx.count("directed-structural-cases")
         handle(case)
     for i in range(n_rand):
         case = gen_case(rng)
